@@ -216,6 +216,26 @@ func registerHarnessIntrinsics() {
 		}
 		return nil, true
 	})
+	reg("vCertPoolSize", func(in *Interp, fr *frame, args []Value) (Value, bool) {
+		p, _ := args[0].(*Value)
+		if p == nil {
+			return Int(0), true
+		}
+		return Int(in.sideObj(p, "certpool").n), true
+	})
+	reg("vTrackElems", func(in *Interp, fr *frame, args []Value) (Value, bool) {
+		// track the element cells of a slice's backing array (up to its capacity)
+		it := args[0].(Iface)
+		if sl, ok := it.V.(Slice); ok && sl.arr != nil {
+			if in.tracked == nil {
+				in.tracked = map[*Value]string{}
+			}
+			for i := 0; i < sl.cp && sl.off+i < len(*sl.arr); i++ {
+				in.tracked[&(*sl.arr)[sl.off+i]] = fmt.Sprintf("%s[%d]", concName(args[1]), i)
+			}
+		}
+		return nil, true
+	})
 	reg("vIsEngine", func(in *Interp, fr *frame, args []Value) (Value, bool) { return true, true })
 	reg("vLateSched", func(in *Interp, fr *frame, args []Value) (Value, bool) {
 		in.lateSched = true
